@@ -31,6 +31,7 @@ def run(ctx):
     ctx.each(optalg.evaluation_pipeline, ctx, repo, "R14i")
     ctx.each(r14j, ctx, repo)
     ctx.each(r14k, ctx, repo)
+    ctx.each(r14m, ctx, repo)
     ctx.each(optalg.proposal_application, ctx, repo, "R14l")  # the bounds every feasibility test and projection uses are the adjustable's own lower / upper bound (0 is a bound, not 'no bound')
     from . import c15
     from .c08 import engines as _eng
@@ -373,3 +374,31 @@ def r14k(ctx, repo):
     ctx.check(not g and any(st is s_ for s_ in lp.body), "R14k", fi, st, "the projection runs for every constrained year", "`%s` is only reached when %s: for the other years the proposal is written back without being projected into the bounds and onto the total" % (norm(st)[:70], " and ".join(("" if p else "not ") + "`%s`" % ast.unparse(t)[:60] for t, p in g) or "a nested condition holds"), stmt_text="projection-unconditional")
     wb = [l for l in lp.body if isinstance(l, ast.For) and isinstance(st, ast.Assign) and any(isinstance(x, ast.Name) and x.id == st.targets[0].id for x in ast.walk(l.iter))]
     ctx.check(len(wb) == 1 and not guards_of(wb[0], stop=lp) and wb[0].lineno > st.lineno, "R14k", fi, wb[0] if wb else lp, "the projected values are written back for every constrained year", "the loop that writes the projected values back into the instructions is missing, conditional, or runs before the projection", stmt_text="writeback-unconditional")
+
+
+def r14m(ctx, repo):
+    ctx.rule("R14m", "writing a package's constrained total back touches the package's own year only: SpendingPackageAdjustment.set_total_spend rescales each member program with `ts.insert(t=self.t, v=ts.get(self.t) * spend_factor)` - no assignment to the whole value list; a rescale of every year re-multiplies the years that TotalSpendConstraint has already constrained, so their totals and bounds are silently missed")
+    fi = repo.func("optimization", "SpendingPackageAdjustment.set_total_spend")
+    me = fi.params[0]
+    whole = [s_ for s_ in own_nodes(fi.node) if isinstance(s_, (ast.Assign, ast.AugAssign)) and any(isinstance(t, ast.Attribute) and t.attr in ("vals", "t") for t in (s_.targets if isinstance(s_, ast.Assign) else [s_.target]))]
+    for s_ in whole:
+        ctx.fail("R14m", fi, s_, "`%s` rewrites a member program's whole spending series: years other than the package's own (`%s.t`), which may already have been constrained, are rescaled too" % (norm(s_)[:80], me), stmt_text="whole-series")
+    ins = [c for c in ast.walk(fi.node) if isinstance(c, ast.Call) and isinstance(c.func, ast.Attribute) and c.func.attr == "insert"]
+    ok = len(ins) == 1
+    if ok:
+        kw = {k.arg: ast.unparse(k.value) for k in ins[0].keywords}
+        pos = [ast.unparse(a) for a in ins[0].args]
+        t = kw.get("t", pos[0] if pos else None)
+        v = kw.get("v", pos[1] if len(pos) > 1 else None)
+        recv = ast.unparse(ins[0].func.value)
+        ok = t == "%s.t" % me and v is not None and _same(ast.parse(v, mode="eval").body, "%s.get(%s.t) * spend_factor" % (recv, me))
+    ctx.check(ok and not whole, "R14m", fi, enclosing_stmt(ins[0]) if ins else fi.node, "members rescaled at the package's own year only", "set_total_spend does not rescale each member with `ts.insert(t=%s.t, v=ts.get(%s.t) * spend_factor)`" % (me, me), stmt_text="rescale-own-year")
+
+
+def _same(node, text):
+    from ..core import algebra as A
+
+    try:
+        return A.poly(node) == A.poly(A.parse(text))
+    except A.NotPolynomial:
+        return False
